@@ -77,6 +77,11 @@ def gen_cases(tier, seed):
     from .. import util_knots as K
     for d in K.tall_curve_shapes(tier) + K.tall_surface_shapes(tier):
         cases.append(dict(shape=d, grid=True, tall=True))
+    # ---- data variety: coordinates, weights, knots, dimensions and input types outside the small-integer world
+    for d in K.variety_shapes(tier):
+        cases.append(dict(shape=d, grid=True, variety=True))
+    for d in K.tiny_span_shapes(tier):
+        cases.append(dict(shape=d, grid=True, variety=True, knots_as_params=True))
     for (p, kv) in A.tall_kvs(1, degrees=(1, 4), counts=(7,)):
         cases.append(dict(shape=A.shape_desc([A.clamped_kv(1, [(0.5, 1)]), A.clamped_kv(2, []), kv], [1, 2, p], p == 1, 3, 'coded', 'coded'),
                           grid=False, tall=True))
